@@ -36,8 +36,9 @@ DirPipelines ==
        Step("dump-bundle", {"bundle"}, [kind |-> "text"], [x |-> 0]) >> : n \in NameClasses, v \in BundleVers, b \in {"root", "sub"} }
   \cup
   { << Step("gen-bundle -dir", {"dir"}, [kind |-> "bundle", sign |-> "none", ver |-> v], [names |-> n, ver |-> v, base |-> "root"]),
-       Step("sign-bundle signatures-section", {"bundle", "certcbor", "eckey"}, [kind |-> "bundle", sign |-> "sigsection", ver |-> v], [keyform |-> k, curve |-> c, rs |-> r]),
-       Step("dump-bundle", {"bundle"}, [kind |-> "text"], [x |-> 0]) >> : n \in {"plain", "nested", "indexroot"}, v \in BundleVers, k \in EcKeyForms, c \in Curves, r \in {16, 4096} }
+       Step("sign-bundle signatures-section", {"bundle", "certcbor", "eckey"}, [kind |-> "bundle", sign |-> "sigsection", ver |-> v], [keyform |-> k, curve |-> c, rs |-> r, ncerts |-> nc]),
+       Step("dump-bundle", {"bundle"}, [kind |-> "text"], [x |-> 0]) >> : n \in {"plain", "nested", "indexroot"}, v \in BundleVers, k \in EcKeyForms, c \in Curves, r \in {16, 4096},
+                                                                            nc \in {1, 2} }     \* certificate chain of the signer: leaf alone / leaf + issuer
   \cup
   { << Step("gen-bundle -dir", {"dir"}, [kind |-> "bundle", sign |-> "none", ver |-> "b2"], [names |-> n, ver |-> "b2", base |-> "root"]),
        Step("sign-bundle integrity-block", {"bundle", "edkey"}, [kind |-> "bundle", sign |-> "iblock", ver |-> "b2"], [keyform |-> k]),
@@ -46,11 +47,12 @@ CertPipelines ==
   { << Step("gen-certurl", {"pemchain", "ocsp"}, [kind |-> "certcbor"], [ncerts |-> nc, curve |-> c, sct |-> s]),
        Step("dump-certurl", {"certcbor"}, [kind |-> "text"], [x |-> 0]) >> : nc \in {1, 2}, c \in Curves, s \in BOOLEAN }
 SxgPipelines ==
-  { << Step("gen-certurl", {"pemchain", "ocsp"}, [kind |-> "certcbor"], [ncerts |-> 1, curve |-> c, sct |-> FALSE]),
+  { << Step("gen-certurl", {"pemchain", "ocsp"}, [kind |-> "certcbor"], [ncerts |-> nc, curve |-> c, sct |-> FALSE]),
        Step("gen-signedexchange", {"content", "pemchain", "eckey"}, [kind |-> "sxg", ver |-> v],
             [ver |-> v, keyform |-> k, curve |-> c, rs |-> r, expire |-> e, status |-> st, cc |-> cc, content |-> ct]),
        Step("dump-signedexchange -verify", {"sxg", "certcbor"}, [kind |-> "text"], [x |-> 0]) >> :
-       v \in SxgVers, k \in EcKeyForms, c \in Curves, r \in {1, 16, 16384}, e \in {"1h", "168h"}, st \in {200, 404}, cc \in {"none", "public", "twolines"}, ct \in {"empty", "small", "multi"} }
+       v \in SxgVers, k \in EcKeyForms, c \in Curves, r \in {1, 16, 16384}, e \in {"1h", "168h"}, st \in {200, 404}, cc \in {"none", "public", "twolines"}, ct \in {"empty", "small", "multi"},
+       nc \in {1, 2} }
 HarPipelines ==
   { << Step("gen-bundle -har", {"har"}, [kind |-> "bundle", sign |-> "none", ver |-> v], [ver |-> v, har |-> h]),
        Step("dump-bundle", {"bundle"}, [kind |-> "text"], [x |-> 0]) >> : v \in BundleVers, h \in {"mixed"} }
